@@ -31,9 +31,9 @@ META = dict(
                "Watch/Alarm/Block of the body, is not detected: the run recurses one level per tick for ~250 ticks or "
                "re-invokes the macro for ever); fixes/C41-macro-recursion-check.diff repairs macro_calling_macro "
                "(17 lines, existing tests green) and the theorems are about the repaired function, so this check "
-               "reports a VIOLATION on the unrepaired tree. The interpreter model OPM.Model.Interp still carries the "
-               "as-is check: the M3 stream therefore runs on methods without call cycles (where both checks agree) and "
-               "the refusal itself is tied at function level and by the engine oracle. NOT proved: the third sentence "
+               "reports a VIOLATION on an unrepaired tree (the repair is commit 9931d3b0). The interpreter model "
+               "OPM.Model.Interp uses the repaired check (OPM.Model.MacroCascade), so the M3 stream also runs recursive "
+               "methods (16 shapes + generated redefinitions). NOT proved: the third sentence "
                "(a started macro may not be edited or removed) is MethodManager._validate_liveedit_method (merge model); "
                "it is checked by the engine oracle only. After an accepted live edit the method manager keeps a "
                "state-less program, so a later edit of a started macro is accepted (recorded finding, root cause in the "
@@ -132,26 +132,29 @@ def gen_fn_cases(ctx: Check) -> list[dict]:
 
 def gen_m3_cases(ctx: Check, n: int) -> list[dict]:
     from harness.gen_pcode import gen_program, gen_schedule
-    from harness.macro_gen import gen_acyclic, pcode_of, has_call_cycle
+    from harness.macro_gen import SHAPES, gen_acyclic, gen_recursive, pcode_of, has_call_cycle
     rng = ctx.rng
     cases = []
     while len(cases) < n:
         x = rng.random()
-        if x < 0.5:
+        if x < 0.4:
             pcode = pcode_of(gen_acyclic(rng))
             ctx.count("m3:acyclic-macro-method")
+        elif x < 0.55:
+            items, shape = gen_recursive(rng, rng.choice(SHAPES))
+            pcode = pcode_of(items)
+            ctx.count("m3:recursive-macro-method")
         else:
             pcode, _ = gen_program(rng, features={"mark", "macro", "wait", "cmd", "thr", "blank", "block", "watch"},
-                                   max_lines=14, malformed=(x > 0.88))
+                                   max_lines=14, malformed=(x > 0.9))
             if "Macro" not in pcode:
                 continue
             try:
                 if has_call_cycle(pcode):
-                    ctx.count("m3:skipped-call-cycle")
-                    continue
+                    ctx.count("m3:generated-with-call-cycle")
             except Exception:
-                continue
-            ctx.count("m3:malformed" if x > 0.88 else "m3:generated-with-macros")
+                pass
+            ctx.count("m3:malformed" if x > 0.9 else "m3:generated-with-macros")
         cases.append({"kind": "m3", "pcode": pcode, "ops": gen_schedule(rng, rng.randrange(15, 50))})
     return cases
 
@@ -389,10 +392,10 @@ def run(ctx: Check) -> int:
                 "call | call nested in a Watch), plus random nested macro texts (containers to depth 3, nested "
                 "definitions, redefinitions, undefined callees); for every prefix of the definitions the table is built "
                 "as the interpreter does and every entry is queried (name = own name and a foreign name). Non-trivial = "
-                "the answer is a non-empty chain. m3 stream: macro-heavy methods without call cycles (generated acyclic "
+                "the answer is a non-empty chain. m3 stream: macro-heavy methods (recursive shapes, generated acyclic "
                 "definitions/redefinitions/calls-before-definition + grammar-generated methods with macros, 12% "
                 "malformed) x schedules of 15-50 ticks with requests. Oracle: acyclic macro methods (Mark trace vs inline "
-                "expansion), 9 shapes of recursion, 6 kinds of edit of a started macro at random ticks.")
+                "expansion), 16 shapes of recursion (self-call first / after another call / nested in or AFTER a Watch, Alarm, Block / via a second macro / foreign cycle), 6 kinds of edit of a started macro at random ticks.")
     # (1) function level
     fn_cases = gen_fn_cases(ctx)
     out, mout = ctx.correspond("macro-check-fn", "MacroCheck", fn_cases, lambda c: _fn_both(c)[0],
@@ -428,12 +431,12 @@ def run(ctx: Check) -> int:
     for c in load_corpus("C41"):
         if c.get("kind") in ("expand", "recursive", "edit"):
             corpus.append(dict(c, items=[_tup(x) for x in c["items"]]))
-    cases = corpus + gen_oracle_cases(ctx, ctx.n(60, 6000), ctx.n(18, 540), ctx.n(24, 1500))
+    cases = corpus + gen_oracle_cases(ctx, ctx.n(60, 6000), ctx.n(32, 640), ctx.n(24, 1500))
     ctx.monitor(cases, oracle, impl_timeout=120)
     tm["oracle"] = round(time.time() - t0 - sum(tm.values()), 1)
     ctx.assumptions = ["programs are the trees the real parser builds", "UOD commands CmdA/CmdB of the harness UOD",
                        "tick interval 0.125 s (dyadic), no Restart"]
-    return ctx.finish(search=lambda c: c.monitor(gen_oracle_cases(c, c.n(40, 300), c.n(27, 90), c.n(12, 60)), oracle,
+    return ctx.finish(search=lambda c: c.monitor(gen_oracle_cases(c, c.n(40, 300), c.n(32, 96), c.n(12, 60)), oracle,
                                                  impl_timeout=120))
 
 
